@@ -436,6 +436,15 @@ Octagonal_Shape<T>
 template <typename T>
 inline void
 Octagonal_Shape<T>::add_constraints(const Constraint_System& cs) {
+  // Validate all the constraints on a scratch object first, so that
+  // a rejected call leaves `*this' unchanged.
+  {
+    Octagonal_Shape scratch(space_dimension(), UNIVERSE);
+    for (Constraint_System::const_iterator i = cs.begin(),
+           i_end = cs.end(); i != i_end; ++i) {
+      scratch.add_constraint(*i);
+    }
+  }
   for (Constraint_System::const_iterator i = cs.begin(),
          i_end = cs.end(); i != i_end; ++i) {
     add_constraint(*i);
